@@ -7,6 +7,7 @@ import random
 from hypothesis import strategies as st
 
 from cpverif import spec as S
+from cpverif import strategies as G
 from cpverif import trackcheck as T
 from cpverif.core import Ctx, Part, custom_part, hyp_part
 from cpverif.model import expected_notes
@@ -31,7 +32,7 @@ HEADER = "MediumKeyboard"
 TEMPO = [[0, 120000]]
 
 
-def _items(phrases, note_ticks):
+def _items(phrases, note_ticks, sp_first=False):
     # notes vary in shape (single, chord, open, tap-flagged) and carry sustains that may reach into or
     # across phrases: membership is decided by the note's own tick only
     keyed = []
@@ -45,7 +46,8 @@ def _items(phrases, note_ticks):
                 keyed.append((t, 0, 2 * i + 1, [t, "N", (i + 2) % 5, (i % 2) * 3]))
         if i % 5 == 4:
             keyed.append((t, 0, 2 * i + 1, [t, "N", 6, 0]))
-    keyed += [(p[0], 1, k, [p[0], "S", 2, p[1]]) for k, p in enumerate(phrases)]
+    # phrase lines behind the note lines of their tick (Moonscraper) or, with sp_first, in front of them
+    keyed += [(p[0], -1 if sp_first else 1, k, [p[0], "S", 2, p[1]]) for k, p in enumerate(phrases)]
     keyed.sort(key=lambda x: (x[0], x[1], x[2]))
     return [x[3] for x in keyed]
 
@@ -63,12 +65,15 @@ def check_case(ctx: Ctx, case) -> None:
     """case: {"phrases": [[start, len], ...] in file order, "notes": [ticks], "res"?}"""
     phrases, note_ticks = case["phrases"], case["notes"]
     res = case.get("res", 192)
-    items = _items(phrases, note_ticks)
+    items = _items(phrases, note_ticks, sp_first=bool(case.get("sp_first")))
     exp = expected_notes(res, items)
     lines = [S.track_line(it) for it in items]
     rc = {"phrases": phrases, "notes": note_ticks, "lines": lines}
     header = S.HEADER_LIST[(len(lines) * 7 + len(phrases) * 3 + sum(note_ticks)) % 40]
-    chart, tr = T.parse_track(ctx, res, case.get("tempo", TEMPO), lines, header, rc, fmt=case.get("fmt", 0))
+    # a section without any phrase always has neighbours (two thirds of the time a fuller sibling
+    # difficulty of the same instrument whose phrase covers every note)
+    chart, tr = T.parse_track(ctx, res, case.get("tempo", TEMPO), lines, header, rc, fmt=case.get("fmt", 0),
+                              decoy=None if phrases else 3)
     if tr is None:
         return
     got_sp = [[e.tick, e.sustain] for e in tr.star_power_events]
@@ -108,7 +113,8 @@ def drive_small(ctx: Ctx) -> None:
             i += 1
             if i % ctx.nshards != ctx.shard:
                 continue
-            case = {"phrases": pl, "notes": [t for t in range(8) if m >> t & 1], "fmt": i if i % 5 == 0 else 0}
+            case = {"phrases": pl, "notes": [t for t in range(8) if m >> t & 1], "fmt": i if i % 5 == 0 else 0,
+                    "sp_first": i % 7 == 3}
             ctx.current = case
             check_case(ctx, case)
     # 3-phrase lists, sampled
@@ -189,8 +195,18 @@ def _relations(draw, ctx):
                 notes = notes + [t + k * span for t in n0]
         if tail_only:
             notes = sorted(set(notes) | {reps * span + 1, reps * span + 2})
+    if draw(st.integers(0, 9)) == 0:
+        phrases = []            # a track with notes and no phrase at all
+    if draw(st.integers(0, 7)) == 0:
+        # everything moved up across the width of a machine integer, one fastest tempo
+        off = draw(st.sampled_from(G.BIG_OFFSETS_32 + G.BIG_OFFSETS_64))
+        phrases = [[p[0] + off, p[1]] for p in phrases]
+        notes = [t + off for t in notes]
+        return {"phrases": phrases, "notes": notes, "res": draw(st.sampled_from([960, 10 ** 6])), "tempo": [[0, 10 ** 9]],
+                "fmt": 0}
     return {"phrases": phrases, "notes": notes, "res": draw(st.sampled_from([192, 480, 3, 10 ** 6])), "tempo": tempo,
-            "fmt": draw(st.one_of(st.just(0), st.just(0), st.integers(1, 10 ** 6)))}
+            "fmt": draw(st.one_of(st.just(0), st.just(0), st.integers(1, 10 ** 6))),
+            "sp_first": draw(st.integers(0, 4)) == 0}
 
 
 def strat_relations(ctx: Ctx):
